@@ -9,6 +9,7 @@ from __future__ import annotations
 
 import builtins
 import copy
+import enum
 import pathlib
 import random
 
@@ -342,6 +343,10 @@ def _pkey(p):
     return pathlib.PurePosixPath(str(p)).as_posix()
 
 
+ALT_SRC = 99  # source id of the unrelated second file content
+ALT_CK = 100  # offset of its checksum tokens in the first argument of Hs
+
+
 class MemFile:
     def __init__(self, base_size=None):
         self.log = []  # (offset, payload) in arrival order
@@ -369,12 +374,15 @@ class MemFs(VirtualFilestore):
     def add_dir(self, p):
         self.dirs.add(_pkey(p))
 
-    def add_source_file(self, p, size):
+    def add_source_file(self, p, size, alt=False):
+        """pristine file holding the first `size` bytes of the genuine content; alt=True: of an
+        unrelated second content (source id ALT_SRC, checksum tokens Hs(type + ALT_CK, n))"""
         f = MemFile(base_size=size)
+        f.alt = alt
         if self.w.sym:
-            f.log.append((0, SymBytes(0, 0, size)))
+            f.log.append((0, SymBytes(ALT_SRC if alt else 0, 0, size)))
         else:
-            self.conc[_pkey(p)] = bytearray(self.w.src_bytes(0, size))
+            self.conc[_pkey(p)] = bytearray(self.w.alt_bytes(size) if alt else self.w.src_bytes(0, size))
         f.size = size
         self.files[_pkey(p)] = f
 
@@ -589,6 +597,10 @@ class MemFs(VirtualFilestore):
             # pristine source file: Hs(n) clamps at the file size, as reading stops at EOF
             size = _z(f.size)
             nn = z3.simplify(z3.If(n > size, size, n))
+            if getattr(f, "alt", False):
+                # unrelated content, but the checksum of nothing is the same for every content
+                ctx.assume(z3.Implies(nn == 0, Hs(ct + ALT_CK, nn) == Hs(ct, nn)))
+                return SymChecksum(Hs(ct + ALT_CK, nn))
             self.w.hs_claims.append(nn)  # a peer will compare its own checksum with this one
             return SymChecksum(Hs(ct, nn))
         h = z3.Int(ctx.fresh("H"))
@@ -789,6 +801,12 @@ class World:
             raise symex.HarnessError("concrete source content longer than 4096 bytes")
         return self._src[start:start + n]
 
+    def alt_bytes(self, n):
+        rnd = random.Random(0xA17 + self.ctx.seed)
+        if n > 4096:
+            raise symex.HarnessError("concrete alternative content longer than 4096 bytes")
+        return bytes(rnd.randrange(1, 256) for _ in range(4096))[:n]
+
     def payload(self, start, n, corrupt=False, jname=None):
         """payload carrying bytes [start, start+n) of the genuine file, or a corrupted copy.
         `corrupt` may be symbolic; the index of a differing byte is the harness variable jname"""
@@ -860,8 +878,10 @@ class World:
 
     def wire(self, pdu):
         """what a serialising link does to a PDU"""
-        if self.sym:
+        if self.sym and _has_symbolic(pdu):
             return copy.deepcopy(pdu)
+        # no symbolic field (ACK, Finished, Prompt, concrete NAK ...): real serialisation in both modes,
+        # so that what the parser makes of a field (plain int instead of an enum member, ...) is seen
         try:
             raw = pdu.pack()
             back = PduFactory.from_raw(bytes(raw))
@@ -873,6 +893,31 @@ class World:
             self.wire_anomalies.append(f"{type(pdu).__name__}: round trip differs")
             return copy.deepcopy(pdu)
         return back
+
+
+def _has_symbolic(obj, depth=0, seen=None):
+    """does a PDU (or anything built from plain objects) carry a symbolic value?"""
+    if isinstance(obj, (symex.SymInt, symex.SymBool, SymBytes, SymChecksum)) or z3.is_expr(obj):
+        return True
+    if type(obj).__name__ in ("SymByteSeq",):
+        return True
+    if obj is None or isinstance(obj, (int, str, bytes, bytearray, float, enum.Enum)):
+        return False
+    if depth > 8:
+        return False
+    seen = seen if seen is not None else set()
+    if id(obj) in seen:
+        return False
+    seen.add(id(obj))
+    if isinstance(obj, dict):
+        return any(_has_symbolic(v, depth + 1, seen) for v in obj.values())
+    if isinstance(obj, (list, tuple, set, frozenset)):
+        return any(_has_symbolic(v, depth + 1, seen) for v in obj)
+    d = getattr(obj, "__dict__", None)
+    if d is not None:
+        return any(_has_symbolic(v, depth + 1, seen) for v in d.values())
+    slots = getattr(type(obj), "__slots__", ())
+    return any(_has_symbolic(getattr(obj, a, None), depth + 1, seen) for a in slots)
 
 
 class WireMismatch(Exception):
